@@ -463,6 +463,16 @@ private:
     variant<nullopt_t, T> _var{nullopt};
 };
 
+namespace detail {
+
+template <typename T>
+inline constexpr bool is_optional = false;
+
+template <typename T>
+inline constexpr bool is_optional<optional<T>> = true;
+
+} // namespace detail
+
 // https://www.open-std.org/jtc1/sc22/wg21/docs/papers/2024/p2988r3.pdf
 template <typename T>
 struct optional<T&> {
@@ -476,7 +486,7 @@ struct optional<T&> {
     }
 
     template <typename U = T>
-        requires(not is_same_v<remove_cvref_t<U>, optional>)
+        requires(not detail::is_optional<remove_cvref_t<U>>)
     constexpr explicit(not is_convertible_v<U, T>) optional(U&& v)
         : _ptr(etl::addressof(v))
     {
@@ -505,7 +515,7 @@ struct optional<T&> {
     }
 
     template <typename U = T>
-        requires(not is_same_v<remove_cvref_t<U>, optional> and not conjunction_v<is_scalar<T>, is_same<T, decay_t<U>>>)
+        requires(not detail::is_optional<remove_cvref_t<U>> and not conjunction_v<is_scalar<T>, is_same<T, decay_t<U>>>)
     constexpr auto operator=(U&& v) -> optional&
     {
         static_assert(is_constructible_v<add_lvalue_reference_t<T>, U>, "Must be able to bind U to T&");
@@ -523,7 +533,7 @@ struct optional<T&> {
     }
 
     template <typename U = T>
-        requires(not is_same_v<remove_cvref_t<U>, optional>)
+        requires(not detail::is_optional<remove_cvref_t<U>>)
     constexpr auto emplace(U&& u) noexcept -> optional&
     {
         *this = etl::forward<U>(u);
